@@ -411,6 +411,7 @@ def judge(cx, behaviours, trace, rejected, crash, trace_module, play_cmd="play",
                    trace_cfg=trace_cfg, extra={"seedindex": i})
         cx.violations.append((what, d))
         return
+    unreproduced = []
     for rj in rejected:
         if len(cx.violations) >= 4:
             break
@@ -441,7 +442,7 @@ def judge(cx, behaviours, trace, rejected, crash, trace_module, play_cmd="play",
             start = max(0, rj["beh"] - 300)
             win = os.path.join(cx.scratch, "win-%d.ndjson" % rj["beh"])
             open(win, "w").write("\n".join(beh_lines[start:rj["beh"] + 1]) + "\n")
-            for attempt in range(3):
+            for attempt in range(8):
                 t3, c3 = play(cx, win, "rewin-%d" % rj["beh"], cmd=play_cmd,
                               extra=(play_extra or []) + ["-seedindex", str(start)])
                 if c3:
@@ -466,7 +467,8 @@ def judge(cx, behaviours, trace, rejected, crash, trace_module, play_cmd="play",
             open(os.path.join(dd, "trace-replayed.ndjson"), "w").write("\n".join(tl) + "\n")
             open(os.path.join(dd, "behaviour.ndjson"), "w").write(bl + "\n")
             open(os.path.join(dd, "tlc.out"), "w").write(rj["tlc"])
-            raise Machinery("rejection of behaviour %d did not reproduce (kept in %s)\n%s" % (rj["beh"], dd, rj["tlc"]))
+            unreproduced.append("rejection of behaviour %d did not reproduce (kept in %s)\n%s" % (rj["beh"], dd, rj["tlc"]))
+            continue
         what = describe_rejection(tout)
         if known_match:
             kf = known_match(bl, tl, tout)
@@ -476,6 +478,9 @@ def judge(cx, behaviours, trace, rejected, crash, trace_module, play_cmd="play",
         d = bundle(cx, what, bl, tl, tout, play_cmd=play_cmd, trace_module=trace_module, trace_cfg=trace_cfg,
                    extra={"seedindex": sidx})
         cx.violations.append((what, d))
+    if unreproduced and not cx.violations and not cx.known:
+        # nothing the real code did could be shown again: no verdict
+        raise Machinery(unreproduced[0])
 
 
 def first_panic_line(out):
